@@ -35,7 +35,7 @@ Qed.
 Lemma rename_file_shape g a b x g' : lstat g a = Some (File x) -> a <> b -> rename g a b = FOk g' ->
   g' = map (move_entry a b) (filter (fun en => negb (beq (fst en) b)) g).
 Proof.
-  intros Ha Hab. unfold rename. rewrite Ha. destruct (negb (is_dir g (pathdir b))); [discriminate|].
+  intros Ha Hab. unfold rename. rewrite Ha. destruct (negb (is_dir g (pathdir b)) || negb (names_fit b)); [discriminate|].
   destruct (at_or_under a b).
   { destruct (beq a b) eqn:E; [apply beq_true in E; contradiction|discriminate]. }
   destruct (lstat g b) as [[|y|t]|] eqn:Eb; try discriminate.
@@ -132,7 +132,7 @@ Proof.
     exists g1, g2. split; [reflexivity|]. split; [|exact Hk].
     apply (K_incl (g1 ++ (TC c n, File old) :: g2)); [|exact ND'|exact (conj HJ (conj ND HT))].
     intros x Hx. apply in_app_or in Hx as [Hx|Hx]; apply in_or_app; [now left|right; now right].
-  - destruct (is_dir g (pathdir (TC c n))); [|discriminate]. injection Hr as <-.
+  - destruct (is_dir g (pathdir (TC c n)) && names_fit (TC c n)); [|discriminate]. injection Hr as <-.
     exists g, []. rewrite app_nil_r. split; [reflexivity|]. split; [exact Hg|].
     intros Hk. apply in_map_iff in Hk as ([q nd] & E & Hq). cbn in E. subst q.
     unfold lstat in El. now apply (fs_get_none _ _ El nd).
@@ -326,6 +326,7 @@ Proof.
   intros Hn. unfold fs_mkdir, do_op. apply h_mutate_real; [exact Hreal|exact KSf|]. unfold apply_op.
   eapply h_bind; [apply h_get_fs|]. intros f. eapply h_bind; [apply h_get_ks|]. intros k.
   apply h_on_fres; [intros g1 [Hg _]; now apply KSf|]. intros g1 f' [Hg ->] Hr. unfold mkdir_all in Hr.
+  destruct (is_dir g1 (layer_path c name)); [now injection Hr as <-|]. destruct (names_fit (layer_path c name)); [|discriminate].
   eapply K_mkdir_prefixes; [exact Hr|exact Hg|]. intros q n Hq Hin.
   destruct (under (TC c n) q) eqn:Eu; [|reflexivity]. exfalso.
   destruct (pathjoin_abs_clean (c_layers c) name (L_rooted c Hcfg) Hn) as [R C]. fold (layer_path c name) in R, C.
@@ -633,6 +634,15 @@ Proof.
   - apply Gen. intros ld HML HN. apply PJ. apply (p_ret J Sf).
   - apply PJ. apply (p_bind J Sf); [now apply p_apply_op|intros u; apply (p_ret J Sf)].
   - apply PJ. apply (p_bind J Sf); [now apply p_apply_op|intros u; apply (p_ret J Sf)].
+  - apply PJ. rewrite <- Ecm in Hok. cbn [cmd_ok] in Hok.
+    apply andb_true_iff in Hok as [Hok H3]. apply andb_true_iff in Hok as [H1 H2].
+    apply negb_true_iff in H2, H3. apply beq_false in H2, H3.
+    assert (Hphi : forall y, C11P.Phi c f0 cmd false p y) by (intros y; repeat split; auto; contradiction).
+    apply h_bind with (Q := fun f g => J g /\ f = g); [apply h_get_fs|]. intros f.
+    destruct (open_trunc f p) as [f'|] eqn:Eo; [|apply h_fail; intros g [Hg _]; now apply (J_Sf c f0 cmd false)].
+    apply h_bind with (Q := fun _ => J); [|intros u; apply (p_ret J Sf)].
+    apply h_put_fs. intros g [Hg ->]. apply FJ_append; [exact Hphi|].
+    eapply FJ_open_trunc; [exact Eo|apply Hphi|exact Hg].
 Qed.
 End Stale4.
 
